@@ -147,6 +147,40 @@ theorem parser_clause (cfg : Cfg) (chunks : List Bytes) (docs : List JV)
       ∃ H' r', conv .generify n opt H r = some (H', r') ∧ denote n H' r' = some (ofJV .gen v) :=
   ⟨by rw [parser_machines_agree, hoj], fun v _ hv n opt H r ho hd => generify_ofJV v hv n opt H r ho hd⟩
 
+/-! ## the writers clause on documents
+
+`wr : JV → α` stands for a writer model on documents (e.g. `Writer.ojWrite o ord` of Writer/OjModel.lean,
+which is defined on form-free documents `JV` and has no clause for generic nodes), `w : T → α` for what
+the Go writer does with a simple tree. If `w` writes the simple tree of document `v` as `wr v`, then the
+writer applied to ANY generic representation of `v` — reached through its `case alt.Simplifier` clause,
+`WriterPkg.viaSimplify`, read from oj/writer.go and sen/writer.go — gives `wr v` as well, and so does the
+writer applied to `Generify` of any simple representation of `v`. -/
+
+theorem writers_clause_doc {α : Type} (p : WriterPkg) (wr : JV → α) (w : T → α) (v : JV)
+    (hv : noBig v = true) (hw : w (ofJV .simple v) = wr v) (n : Nat) (Hg : Heap) (rg : Ref)
+    (hg : denote n Hg rg = some (ofJV .gen v)) :
+    writeRoot p w n Hg rg = some (wr v) := by
+  have hp := ofJV_pure .gen v hv
+  obtain ⟨H', r', _, hd'⟩ := simplify_value n ⟨false, false⟩ Hg rg _ rfl hg hp
+  obtain ⟨h1, h2⟩ := writers_clause p w n Hg rg H' r' _ hg hp hd'
+  rw [h1, h2, toForm_ofJV, hw]
+
+/-- `write (Generify v) = write v` -/
+theorem write_generify_doc {α : Type} (p : WriterPkg) (wr : JV → α) (w : T → α) (v : JV)
+    (hv : noBig v = true) (hw : w (ofJV .simple v) = wr v) (n : Nat) (opt : Opt) (H : Heap) (r : Ref)
+    (ho : KeepsNulls opt) (hd : denote n H r = some (ofJV .simple v)) :
+    ∃ H' r', conv .generify n opt H r = some (H', r') ∧
+      writeRoot p w n H' r' = writeRoot p w n H r ∧ writeRoot p w n H r = some (wr v) := by
+  obtain ⟨H', r', hc, hd'⟩ := generify_ofJV v hv n opt H r ho hd
+  refine ⟨H', r', hc, ?_⟩
+  have hs : writeRoot p w n H r = some (wr v) := by
+    simp [writeRoot, hd, ofJV_pure .simple v hv, hw]
+  rw [hs, writers_clause_doc p wr w v hv hw n H' r' hd']
+  exact ⟨rfl, rfl⟩
+
+-- the hypothesis on `w` is satisfiable for every `wr` and `v`
+example {α : Type} (wr : JV → α) (v : JV) : ∃ w : T → α, w (ofJV .simple v) = wr v := ⟨fun _ => wr v, rfl⟩
+
 /-! the hypotheses are satisfiable: `[1,{"a":null}]` as delivered by the machine, and a heap for it -/
 example : (match run ojTables {} [[91, 49, 44, 123, 34, 97, 34, 58, 110, 117, 108, 108, 125, 93]] with
     | .ok [.arr [.int 1, .obj [(k, .null)]]] => k == [97]
